@@ -851,7 +851,7 @@ pub async fn after_commits(_rng: &mut Rng, t: &mut Tbl, ctx: &mut Ctx, q: &Queri
 
 pub fn run(args: &Args, sink: &mut Sink, rng: &mut Rng) {
     let rt = tokio::runtime::Builder::new_multi_thread().worker_threads(4).enable_all().build().unwrap();
-    let n_hist = args.vol(12, 150);
+    let n_hist = args.vol(8, 150);
     let mut st = Streams::new();
     rt.block_on(async {
         for h in 0..n_hist {
